@@ -187,6 +187,21 @@ pub fn check_run(
                 ended[x] = true;
                 if *failed {
                     st.failed.push(x);
+                    // "no function ordered after a failed one ... is *ever* started": one
+                    // that was started before the failed function even returned breaks that
+                    // too (it can only happen when the run does not follow the requested
+                    // order, e.g. options whose direction was lost on the way)
+                    if shape.is_try() && !is_fold {
+                        for &y in &st.started {
+                            if y != x && facts.built_after(x, y, rev) {
+                                out.push(v(
+                                    "C07",
+                                    "dependent-of-failed-had-run",
+                                    format!("function {y} is ordered after failed {x} (rev={rev}) but had already been started when {x} failed"),
+                                ));
+                            }
+                        }
+                    }
                     let has_succ = facts
                         .built
                         .iter()
